@@ -140,6 +140,15 @@ def check_deferral(tr, case, stats, script_steps=True):
     seen_in = collections.Counter()
     for r in tr.steps:
         cmds = r["out"] if r["kind"] in ("g", "script") else r["sent"]
+        if r["kind"] == "settings":
+            # a settings save during the history: the scripts configured from now on
+            saved = case["steps"][r["idx"]][1]
+            enter = saved.get("enter_lines", enter)
+            exit_ = saved.get("exit_lines", exit_)
+            stats["c06_settings_saves"] += 1
+            if r["open_before"]:
+                stats["c06_settings_saves_inside_episode"] += 1
+            continue
         if r["kind"] == "event":
             if r.get("event") == EV_START or r["closed"]:
                 model.flush()               # abandoned: nothing may ever be delivered from it
@@ -238,6 +247,8 @@ def build_case(rnd, tier, for_c15=False):
     regs = gen_regions(rnd, rnd.choice([1, 2, 2, 3]))
     marks = Markers(ext)
     steps = []
+    nsave = [0]
+    cur_settings = [dict(settings, enter_lines=enter, exit_lines=exit_)]
     nprints = rnd.choice([1, 1, 2, 3]) if not for_c15 else 1
     for pi in range(nprints):
         steps.append(["event", EV_START])
@@ -250,7 +261,28 @@ def build_case(rnd, tier, for_c15=False):
         # start G-code of a print: the printer keeps its modal state across prints, the filter assumes the defaults
         prog[1:1] = [["g", "G92 E0"]]
         prog[0:0] = [["g", "G21"], ["g", "G90"]]
+        if rnd.random() < 0.3 and len(prog) > 8:
+            # the job is paused and resumed (neither ends it nor an episode)
+            a = rnd.randrange(4, len(prog) - 2)
+            b = rnd.randrange(a + 1, min(len(prog), a + 10) + 1)
+            prog.insert(b, ["event", "PrintResumed"])
+            prog.insert(a, ["event", "PrintPaused"])
+        if rnd.random() < 0.25 and len(prog) > 8:
+            # the scripts are edited and saved while the job runs (possibly while an episode is open)
+            nsave[0] += 1
+            enter2 = ["M117 ENTER%d#%d" % (nsave[0], k) for k in range(rnd.choice([0, 1, 2]))]
+            exit2 = ["M117 EXIT%d#0" % nsave[0], "M400", "M106 S%d" % (201 + nsave[0])][:rnd.choice([0, 1, 3])]
+            cur = dict(cur_settings[0], enter=decorate(rnd, enter2), exit=decorate(rnd, exit2), enter_lines=enter2, exit_lines=exit2)
+            cur_settings[0] = cur
+            prog.insert(rnd.randrange(4, len(prog)), ["settings", cur])
         steps += prog
+        if for_c15 and g.believed_open() and rnd.random() < 0.15:
+            # shrinking allowed: the region the tool is in is deleted through the API, then the job completes
+            steps.insert(1, ["settings", dict(cur_settings[0], shrink=True)])
+            for st in steps:
+                if st[0] == "settings":
+                    st[1]["shrink"] = True
+            steps += [["api_delete", r[-1]] for r in regs]
         k = rnd.random()
         if for_c15:
             break
